@@ -43,7 +43,7 @@ func (b *ByteBuffer) ReleaseBytes(p []byte) {
 func (b *ByteBuffer) Bufferize(p []byte) []byte {
 	off := len(b.b)
 	b.b = append(b.b, p...)
-	return b.b[off:]
+	return b.b[off:len(b.b):len(b.b)]
 }
 
 func (b *ByteBuffer) BufferizeString(s string) string {
